@@ -14,14 +14,18 @@ for n in sorted(os.listdir(root)):
         if r.get('signatures'):
             sig = r['signatures'][0].split(' count=')[0].replace('signature=', '')
             break
+    extra = m.get('note') or m.get('rebased') or ''
+    if extra:
+        need = need + ' [' + extra[:200] + ']'
     rows.append('| %s | %s | %s | %s | %s |' % (n, m['property'], ', '.join(m.get('detected_by', [])) or '-', sig, need))
 txt = ['# Seeded changes and the checks that catch them', '',
-       'Two changes per property, written by independent sub-agents that were given only the property text and a scratch worktree; each was',
+       'Eight changes per property (five rounds; from round 3 on the agents were also told which sites the earlier changes had used), written by independent sub-agents that were given only the property text and a scratch worktree; each was',
        'confirmed (`tools/confirm_seed.sh`): the 161 repository tests pass with it, its demonstration fails with it and passes without it.',
-       '`tools/run_seeds.py` applies a change to /repo, runs the check(s), records the outcome in `meta.json`, and restores /repo.', '',
+       '`tools/run_seeds.py` applies a change (to /repo, or with --wt to a scratch worktree), runs the check(s), records the outcome in `meta.json`, and restores the tree.', '',
        '| seed | property | detected by (quick tier) | first signature reported | what it needs to manifest |', '|---|---|---|---|---|'] + rows
 detected = sum(1 for r in rows if '| - |' not in r)
-txt += ['', '%d of %d seeded changes are reported by the quick tier of the check of their own property.' % (detected, len(rows)), '',
+own = sum(1 for n_, r in zip(sorted(os.listdir(root)), rows) if ('| %s |' % json.load(open(os.path.join(root, n_, 'meta.json')))['property']) and json.load(open(os.path.join(root, n_, 'meta.json')))['property'] in json.load(open(os.path.join(root, n_, 'meta.json'))).get('detected_by', []))
+txt += ['', '%d of %d seeded changes are reported by the quick tier of some check, %d of them by the check of their own property; see DESIGN.md section 0.4 for the ones that are not.' % (detected, len(rows), own), '',
         'Notes on how checks were strengthened after a first miss (the property statements were never changed):', '',
         '* C05-m1 (settle per clock driver): the first quick configuration had a single clock domain; multi-domain netlists (MC_Edge with',
         '  Gated = TRUE, domain chains in the composites) were added.',
